@@ -213,7 +213,21 @@ func (db *DB) batchSet(entries []*kv.Entry) error {
 		return err
 	}
 
-	return req.Wait()
+	// Wait releases the request's reference of every entry. When the pipeline
+	// reports an error the callers (setEntry, SetVersionedEntry) release the
+	// entry themselves, exactly as after the early returns above, so keep one
+	// reference per entry for them; without it a write that failed in the
+	// commit worker panicked with a refcount underflow instead of returning.
+	for _, e := range entries {
+		e.IncrRef()
+	}
+	err = req.Wait()
+	if err == nil {
+		for _, e := range entries {
+			e.DecrRef()
+		}
+	}
+	return err
 }
 
 func (db *DB) enqueueCommitRequest(cr *commitRequest) error {
